@@ -36,8 +36,12 @@ EntryFactors == [bs |-> Sizes, ks |-> Sizes, vs |-> Sizes, flag |-> Flags, statu
 EntryBase    == [bs |-> 1, ks |-> 1, vs |-> 1, flag |-> 1, status |-> 1, ds |-> 2, ts |-> "1", ttl |-> "0", txid |-> "1", pos |-> "start"]
 RootFactors  == [fid |-> Big, rootoff |-> Big, ss |-> Sizes, es |-> Sizes]
 RootBase     == [fid |-> "1", rootoff |-> "1", ss |-> 1, es |-> 1]
-MetaFactors  == [ss |-> Sizes, es |-> Sizes]
-MetaBase     == [ss |-> 1, es |-> 1]
+\* stale: the library rewrites the bucket-metadata record in place (WriteAt at
+\* offset 0, no truncation), so a record can be followed by the last `stale`
+\* bytes of a longer record that was stored there before
+Stales       == {0, 5}
+MetaFactors  == [ss |-> Sizes, es |-> Sizes, stale |-> Stales]
+MetaBase     == [ss |-> 1, es |-> 1, stale |-> 0]
 
 Variants1(base, fs) == {[base EXCEPT ![f] = v] : <<f, v>> \in UNION {{<<f, v>> : v \in fs[f]} : f \in DOMAIN fs}}
 Variants2(base, fs) == UNION {Variants1(t, fs) : t \in Variants1(base, fs)}
@@ -50,7 +54,7 @@ Templates(kind) ==
                           \cup SizeCombos([EntryBase EXCEPT !.pos = "end"], {"bs", "ks", "vs"})
     [] kind = "root"  -> (IF Pairs THEN Variants2(RootBase, RootFactors) ELSE Variants1(RootBase, RootFactors))
                           \cup SizeCombos(RootBase, {"ss", "es"})
-    [] kind = "meta"  -> SizeCombos(MetaBase, {"ss", "es"})
+    [] kind = "meta"  -> UNION {SizeCombos([MetaBase EXCEPT !.stale = st], {"ss", "es"}) : st \in Stales}
 
 \* stored length of a template
 Len0(kind, t) ==
